@@ -55,7 +55,7 @@ Definition tabs_ok (m : memory) : Prop :=
 Definition is_tab (k : string) : Prop :=
   k = "s_box" \/ k = "rs_box" \/ k = "RC" \/ k = "Logtable" \/ k = "Alogtable".
 
-Notation P := aes_prog.
+Local Notation P := aes_prog.
 
 (* ---------------- addroundkey ---------------- *)
 Lemma xor64 : forall a b : list N, List.length a = 8%nat -> List.length b = 8%nat ->
